@@ -106,6 +106,11 @@ type Gen struct {
 	specAxioms []string
 	entryReach string
 	exceptTerms map[string]string
+	recDefs []string
+	useTwin bool
+	heapAxioms []heapAxiom
+	heapSigs map[string]bool
+	heapSnaps []map[string]string
 }
 
 func newGen(w *World, fn *ssa.Function, fc *FuncContract) *Gen {
